@@ -23,12 +23,13 @@ import (
 func TestMain(m *testing.M) { rt.Main(m) }
 
 type ctor struct {
-	Name    string
-	Order   string // fifo | lifo : what name and documentation state
-	Evict   bool
-	Timeout time.Duration
-	build   func(inner core.Limiter) core.Limiter // nil: pool with its own inner limiter
-	pool    func() core.Limiter
+	Name      string
+	Order     string // fifo | lifo : what name and documentation state
+	Evict     bool
+	Timeout   time.Duration
+	NoTimeout bool
+	build     func(inner core.Limiter) core.Limiter // nil: pool with its own inner limiter
+	pool      func() core.Limiter
 }
 
 // flaky is a delegate that may refuse one attempt although it has capacity (a delegate is free to refuse: a
@@ -76,7 +77,15 @@ func ctors() []ctor {
 			return limiter.NewQueueBlockingLimiterFromConfig(in, limiter.QueueLimiterConfig{Ordering: o, MaxBacklogSize: 50, MaxBacklogTimeout: h, BacklogEvictDoneCtx: evict})
 		}
 	}
+	never := 100 * 365 * 24 * time.Hour // no backlog timeout at all (a negative MaxBacklogTimeout): a queued caller leaves only by being served or, with eviction, cancelled
+	noTimeout := func(o limiter.QueueOrdering) func(core.Limiter) core.Limiter {
+		return func(in core.Limiter) core.Limiter {
+			return limiter.NewQueueBlockingLimiterFromConfig(in, limiter.QueueLimiterConfig{Ordering: o, MaxBacklogSize: 50, MaxBacklogTimeout: -1, BacklogEvictDoneCtx: true})
+		}
+	}
 	return []ctor{
+		{Name: "FromConfig{fifo,evict,no-timeout}", Order: "fifo", Evict: true, Timeout: never, NoTimeout: true, build: noTimeout(limiter.OrderingFIFO)},
+		{Name: "FromConfig{lifo,evict,no-timeout}", Order: "lifo", Evict: true, Timeout: never, NoTimeout: true, build: noTimeout(limiter.OrderingLIFO)},
 		{Name: "FromConfig{fifo}", Order: "fifo", Timeout: h, build: cfg(limiter.OrderingFIFO, false)},
 		{Name: "FromConfig{fifo,evict}", Order: "fifo", Evict: true, Timeout: h, build: cfg(limiter.OrderingFIFO, true)},
 		{Name: "FromConfig{lifo}", Order: "lifo", Timeout: h, build: cfg(limiter.OrderingLIFO, false)},
@@ -579,7 +588,9 @@ func scenario(t *testing.T, idx int64, c ctor, r *rand.Rand) {
 			w.cancel()
 		}
 		synctest.Wait()
-		time.Sleep(c.Timeout + time.Second)
+		if !c.NoTimeout {
+			time.Sleep(c.Timeout + time.Second)
+		}
 		synctest.Wait()
 		if holder != nil {
 			holder.OnIgnore()
@@ -694,7 +705,9 @@ func twoHolders(t *testing.T, idx int64, c ctor, r *rand.Rand) {
 			w.cancel()
 		}
 		synctest.Wait()
-		time.Sleep(c.Timeout + time.Second)
+		if !c.NoTimeout {
+			time.Sleep(c.Timeout + time.Second)
+		}
 		synctest.Wait()
 		for round := 0; round < 5; round++ {
 			for _, w := range ws {
